@@ -258,3 +258,19 @@ Theorem push_expand_appends : forall r q v, Inv r q ->
 Proof.
   intros r q v HI. rewrite (push_expand_bridge r q v HI). eexists. split; [reflexivity|]. apply Pure.push_expand_spec; auto.
 Qed.
+
+(* the premises are satisfiable in a wrapped rotation: capacity 3, head = 2, tail = 0 holds [3; 4]; Recap(5) there
+   uses the two-part copy and keeps the order *)
+Example wrapped_state_inv :
+  exists r, exec {| vals := [0; 0; 0]; head := -1; tail := -1; cap := 3 |} [OPush 1; OPush 2; OPush 3; OPop; OPop; OPush 4] = Some r /\
+            head r = 2 /\ tail r = 0 /\ Inv r [3; 4].
+Proof.
+  eexists. split; [vm_compute; reflexivity|]. split; [reflexivity|]. split; [reflexivity|].
+  unfold Pure.Inv. cbn [cap vals head tail length]. repeat split; try lia.
+  intros j Hj. destruct j as [|[|j]]; [reflexivity|reflexivity|cbn [length] in Hj; lia].
+Qed.
+Example wrapped_recap :
+  ring_case 3 [OPush 1; OPush 2; OPush 3; OPop; OPop; OPush 4; ODump; ORecap 5; ODump; OPop; OPop; OPop]
+  = Some [RBool true; RBool true; RBool true; RVal true 1; RVal true 2; RBool true; RDump [2; 0; 4; 0; 3];
+          RBool true; RDump [0; 1; 3; 4; 0; 0; 0]; RVal true 3; RVal true 4; RVal false 0].
+Proof. vm_compute. reflexivity. Qed.
